@@ -15,7 +15,7 @@ BOUNDS = dict(quick='compositional: original curve n = 7, every reduction keepin
 ASSUMPTIONS = ['exact real arithmetic (T1)', 'assume-guarantee: the simplifier output is any strictly increasing index set with both ends (C01) and the detector output any strictly increasing '
                'subset of [0, m-2] of the reduced curve (C02); the filters and the mapping are the real code',
                'constant sub-ranges in the Pearson ranking (nan in NumPy) are excluded as in C12', 'the bundled traces are concrete data and not a solver question (outside the claim)']
-CONFIG = dict(quick=dict(budget_s=175, case_wall_s=120, max_paths=8000, nra_at_decide=False), thorough=dict(budget_s=900, case_wall_s=600, max_paths=200000, nra_at_decide=False))
+CONFIG = dict(quick=dict(budget_s=175, case_wall_s=120, max_paths=8000, nra_at_decide=False), thorough=dict(max_cases=1200, budget_s=900, case_wall_s=600, max_paths=200000, nra_at_decide=False))
 SIMPL = ['rdp', 'rdp_fixed', 'grdp', 'mp_grdp', 'min_point_rdp']
 DETS = ['curvature', 'dfdt', 'menger', 'lmethod', 'kneedle']
 
